@@ -77,6 +77,11 @@ pub fn generate(seed: u64) -> Sc {
     for _ in 0..n {
         lookups.push(interesting_date(&mut r, &boc0, today));
     }
+    // now and then a date in the year before the calendar starts: a year without any publication
+    if r.chance(1, 6) {
+        let first = ymd(cal.start_year, 1, 1);
+        lookups.push(first - Duration::days(*r.pick(&[1i64, 2, 5, 9, 40, 300])));
+    }
     // obs_malformed configuration: a fifth of the simulations damage a few observations,
     // preferably ones a look-up will want.
     let mut malformed = vec![];
@@ -360,6 +365,9 @@ impl Engine for C12 {
             let seq_note = if plen > 1 { format!(" [look-up #{} of {} by one loader: {:?}]", li, plen, obs.lookups.iter().map(|l| l.date.to_string()).collect::<Vec<_>>()) } else { String::new() };
             digest = fnv64_add(digest, show_answer(&got).as_bytes());
             // probes / abstract state
+            if d.year() < sc.cal.start_year {
+                st.bump("probe.date_in_a_year_without_any_publication");
+            }
             let crosses_year = matches!(&expect, RefAnswer::Rate { date, .. } if date.year() != d.year()) || (expect == RefAnswer::NoRate && d < today && (d - Duration::days(7)).year() != d.year());
             let rel = if d > today {
                 "future"
@@ -990,6 +998,7 @@ impl Engine for C12 {
             "probe.app_sell_rows",
             "probe.app_runs_with_date_fmt_option",
             "probe.calendar_around_par_noon_below_1_daily_above_1",
+            "probe.date_in_a_year_without_any_publication",
             "probe.today_from_system_clock_west_of_utc",
             "probe.today_from_system_clock_east_of_utc",
             "probe.app_return_of_capital_in_usd_without_rate",
